@@ -9,7 +9,7 @@ entries are exactly what the code under test creates.  Everything done to the wo
 ``script`` so that a solver model can be replayed on real sqlite3 by sx.real.
 """
 import sys, os, z3, sqlite3
-from .engine import (E, Engine, SBool, SStr, SNum, SymDict, SymSet, Z, W, Abort, Inconclusive,
+from .engine import (E, Engine, IntName, SBool, SStr, SNum, SymDict, SymSet, Z, W, Abort, Inconclusive,
                      Unsupported, conc, tobool)
 from .relstore import RelStore, Snapshot, STR, INT, REAL
 
@@ -244,6 +244,8 @@ class SymWorld:
         TAP.log = nl
         DBM.log = nl
         S.set = SymSet
+        S.int = IntName
+        WS.int = IntName
         S.AppNamespace = SymAppNamespace
         S.generate_mailbox_id = self.fresh_mailbox_id
         S.random = self.random
@@ -258,6 +260,9 @@ class SymWorld:
         S.log, WS.log, TAP.log, DBM.log = REAL["S_log"], REAL["WS_log"], REAL["TAP_log"], REAL["DBM_log"]
         if "set" in S.__dict__:
             del S.__dict__["set"]
+        for m in (S, WS):
+            if "int" in m.__dict__:
+                del m.__dict__["int"]
         S.AppNamespace = REAL["AppNamespace"]
         S.generate_mailbox_id = REAL["gen"]
         S.random = REAL["random"]
